@@ -32,6 +32,27 @@ fn sat(n: i64) -> i64 {
     n.clamp(-1_000_000, 1_000_000)
 }
 
+pub const SCRIPTS: [&str; 5] = ["return redis.call('GET', KEYS[1])", "return redis.call('INCR', KEYS[1])", "return redis.call('RPUSH', KEYS[1], ARGV[1])",
+                                "return redis.call('SET', KEYS[1], ARGV[1])", "return 1"];
+/// digest of script `sid` (1-based) as the code computes it, asked once from a scratch executor
+pub fn script_sha(sid: usize) -> String {
+    static SHAS: std::sync::OnceLock<Vec<String>> = std::sync::OnceLock::new();
+    SHAS.get_or_init(|| {
+        let mut ex = CommandExecutor::new();
+        SCRIPTS.iter().map(|t| match ex.execute(&parse_argv(&vec![b("SCRIPT"), b("LOAD"), b(t)]).unwrap()) {
+            RespValue::BulkString(Some(d)) => String::from_utf8_lossy(&d).to_string(),
+            _ => "0".repeat(40),
+        }).collect()
+    })[sid - 1].clone()
+}
+
+pub struct ScriptOp;
+impl ScriptOp {
+    pub fn is(c: &Value) -> bool {
+        matches!(c["op"].as_str().unwrap_or(""), "SCRIPT_LOAD" | "SCRIPT_FLUSH" | "SCRIPT_EXISTS" | "EVAL" | "EVALSHA")
+    }
+}
+
 pub struct Gen {
     pub rng: ChaCha8Rng,
     pub keys: Vec<String>,
@@ -133,6 +154,68 @@ impl Gen {
         ];
         let argv = pool[self.rng.gen_range(0..pool.len())].clone();
         (json!({"op": "OTHER"}), argv)
+    }
+
+    /// Script-cache commands (RedisKeyspace!DoScript): five fixed one-command scripts, loaded, run by text or
+    /// by digest, probed and flushed.  The digest of a script text is obtained once from a scratch executor.
+    pub fn script_command(&mut self) -> (Value, Argv) {
+        let k = self.key();
+        let kb = k.clone().into_bytes();
+        let sid = [1usize, 1, 2, 2, 3, 4, 5][self.rng.gen_range(0..7)];
+        let v = self.small();
+        let (text, body, tail): (&str, Value, Argv) = match sid {
+            1 => (SCRIPTS[0], json!({"op": "GET", "k": k}), vec![b("1"), kb]),
+            2 => (SCRIPTS[1], json!({"op": "INCRBY", "k": k, "d": int_json(1), "dmin": false}), vec![b("1"), kb]),
+            3 => (SCRIPTS[2], json!({"op": "PUSH", "k": k, "vs": [v.clone()], "left": false}), vec![b("1"), kb, v.clone()]),
+            4 => (SCRIPTS[3], json!({"op": "SET", "k": k, "v": v.clone(), "ex": -1, "px": -1, "nx": false, "xx": false, "get": false, "keepttl": false}), vec![b("1"), kb, v.clone()]),
+            _ => (SCRIPTS[4], json!({"op": "NONE"}), vec![b("0")]),
+        };
+        match self.rng.gen_range(0..13) {
+            0..=2 => (json!({"op": "SCRIPT_LOAD", "sid": sid}), vec![b("SCRIPT"), b("LOAD"), b(text)]),
+            3 => (json!({"op": "SCRIPT_FLUSH"}), vec![b("SCRIPT"), b("FLUSH")]),
+            4 => {
+                let sids = [sid, self.rng.gen_range(1..=5usize)];
+                (json!({"op": "SCRIPT_EXISTS", "sids": sids}), vec![b("SCRIPT"), b("EXISTS"), script_sha(sids[0]).into_bytes(), script_sha(sids[1]).into_bytes()])
+            }
+            5..=7 => { let mut argv = vec![b("EVAL"), b(text)]; argv.extend(tail); (json!({"op": "EVAL", "sid": sid, "body": body}), argv) }
+            _ => { let mut argv = vec![b("EVALSHA"), script_sha(sid).into_bytes()]; argv.extend(tail); (json!({"op": "EVALSHA", "sid": sid, "body": body}), argv) }
+        }
+    }
+
+    /// Modelled commands outside the original table: bit operations, GETEX, and the commands
+    /// whose result is a random choice (SPOP, RANDOMKEY: the model lists every choice).
+    pub fn extra_command(&mut self) -> (Value, Argv) {
+        let which = self.rng.gen_range(0..12);
+        // mostly at a key that usually has the fitting type
+        let k = if self.rng.gen_bool(0.6) { (if (8..=10).contains(&which) { "st" } else { ["k1", "k2", "k3"][self.rng.gen_range(0..3)] }).to_string() } else { self.key() };
+        let kb = k.clone().into_bytes();
+        match which {
+            0..=2 => {
+                let off = [0i64, 1, 7, 8, 9, 15, 23, 30, 100][self.rng.gen_range(0..9)];
+                let bit = self.rng.gen_range(0..2);
+                (json!({"op": "SETBIT", "k": k, "off": off, "bit": bit}), vec![b("SETBIT"), kb, b(&off.to_string()), b(&bit.to_string())])
+            }
+            3..=4 => {
+                let off = [0i64, 1, 7, 8, 9, 15, 23, 30, 100, 5000][self.rng.gen_range(0..10)];
+                (json!({"op": "GETBIT", "k": k, "off": off}), vec![b("GETBIT"), kb, b(&off.to_string())])
+            }
+            5..=7 => match self.rng.gen_range(0..4) {
+                0 => (json!({"op": "GETEX", "k": k, "mode": "none", "ms": 0}), vec![b("GETEX"), kb]),
+                1 => (json!({"op": "GETEX", "k": k, "mode": "persist", "ms": 0}), vec![b("GETEX"), kb, b("persist")]),
+                2 => { let t = [1i64, 10, 0, -1, 100][self.rng.gen_range(0..5)]; (json!({"op": "GETEX", "k": k, "mode": "rel", "ms": t * 1000}), vec![b("GETEX"), kb, b("EX"), b(&t.to_string())]) }
+                _ => { let t = [1i64, 1500, 0, -3, 250][self.rng.gen_range(0..5)]; (json!({"op": "GETEX", "k": k, "mode": "rel", "ms": t}), vec![b("GETEX"), kb, b("px"), b(&t.to_string())]) }
+            },
+            8..=10 => {
+                let n = [-1i64, -1, 0, 1, 2, 5][self.rng.gen_range(0..6)];
+                let mut argv = vec![b("SPOP"), kb];
+                if n >= 0 { argv.push(b(&n.to_string())); }
+                (json!({"op": "SPOP", "k": k, "n": n}), argv)
+            }
+            _ => {
+                let kbs: Vec<Value> = self.keys.iter().map(|x| json!([x, x.as_bytes()])).collect();
+                (json!({"op": "RANDOMKEY", "kb": kbs}), vec![b("RANDOMKEY")])
+            }
+        }
     }
 
     /// One command: (abstract JSON in RedisKeyspace.tla's shape, argv)
@@ -313,6 +396,11 @@ pub fn render(c: &Value) -> Argv {
             if flag("get") { argv.push(b("GET")); }
         }
         "SETEX" => argv = vec![b("PSETEX"), k(), b(&num("ms").to_string()), bytes_of(&c["v"])],
+        "SETBIT" => argv = vec![b("SETBIT"), k(), b(&num("off").to_string()), b(&num("bit").to_string())],
+        "GETBIT" => argv = vec![b("GETBIT"), k(), b(&num("off").to_string())],
+        "GETEX" => { argv = vec![b("GETEX"), k()]; match c["mode"].as_str().unwrap_or("none") { "persist" => argv.push(b("PERSIST")), "rel" => { argv.push(b("PX")); argv.push(b(&num("ms").to_string())); } _ => {} } }
+        "SPOP" => { argv = vec![b("SPOP"), k()]; if num("n") >= 0 { argv.push(b(&num("n").to_string())); } }
+        "RANDOMKEY" => argv = vec![b("RANDOMKEY")],
         "INCRBY" => argv = vec![b("INCRBY"), k(), b(&int_of(&c["d"]))],
         "MGET" => { argv = vec![b("MGET")]; argv.extend(keys("ks")); }
         "MSET" | "MSETNX" => { argv = vec![b(c["op"].as_str().unwrap())]; let (ks, vs) = (keys("ks"), list("vs")); for i in 0..ks.len() { argv.push(ks[i].clone()); argv.push(vs[i].clone()); } }
@@ -504,8 +592,9 @@ pub fn run_one_via(run: usize, gen: &mut Gen, len: usize, vias: &[&str], out: &m
             }
             _ => now += 100_000,
         }
-        let (c, argv) = if e_ms != 0 && gen.rng.gen_range(0..6) == 0 { abs_command(gen, now, e_ms) } else { gen.command() };
-        let via = vias[gen.rng.gen_range(0..vias.len())];
+        let (c, argv) = if e_ms != 0 && gen.rng.gen_range(0..6) == 0 { abs_command(gen, now, e_ms) } else if gen.rng.gen_range(0..12) == 0 { gen.extra_command() } else if gen.rng.gen_range(0..14) == 0 { gen.script_command() } else { gen.command() };
+        let pick = vias[gen.rng.gen_range(0..vias.len())];
+        let via = if ScriptOp::is(&c) { "direct" } else { pick };
         let s = step_via(&mut ex, run, now, &c, &argv, via, out);
         for e in s.as_array().unwrap() {
             if let Some(d) = e[3].as_i64() {
